@@ -4,6 +4,8 @@ import PGV.Props.C05
 #print axioms PGV.Props.C05.C05_int
 #print axioms PGV.Props.C05.digit_of_range
 #print axioms PGV.Props.C05.C05_phone
+#print axioms PGV.Props.C05.C05_float
+#print axioms PGV.Props.C05.C05_idcard
 #print axioms PGV.Props.C05.C05_timefmt_year
 #print axioms PGV.Props.C05.C05_timefmt_year2month
 #print axioms PGV.Props.C05.C05_timefmt_date
